@@ -19,7 +19,7 @@ RULES = {
     'C09.R1': 'field agreement: for every line kind, field k written by the generator and field k consumed by the solver carry the same role; fields are separated by whitespace once ":" is deleted; a list-valued field is last',
     'C09.R2': 'section agreement: header counts and the order and number of lines per section are the same in writer and reader, for -na 2 and -na 3',
     'C09.R3': 'flag vocabulary: -f, -na (int), -twopl, -bf, -stab, -pc exist in the solver with the documented arity',
-    'C09.R5': 'a file the generator can write is never rejected by the reader: no raise on an empty second-side list',
+    'C09.R5': 'a file the generator can write is never rejected by the reader: no raise on an empty second-side list; and it is the file given that is read (C10.R8: nothing remembered from an earlier file of the same name)',
     'C09.R6': 'the loaded instance is solved by a model whose constraints are the definition of a valid matching (C01.R1-R3 re-evaluated on the current tree)',
     'C09.R7': 'ties written by the generator are the ties the solver reads: product of the tie writer and the tie reader tables (C13.R1-R3 re-evaluated on the current tree)',
     'C09.R4': 'rank look-up totality: with -twopl the reader looks up (lecturer, student) for every pair; those keys are exactly the ones the generator writes (C12); numeric fields are written as integers',
@@ -160,6 +160,8 @@ def run(rep, repo, tier):
             check_no_rejection(rep, Reader(repo, na, True), 'C09.R5')
         except (AnalysisError, Unknown) as e:
             rep.inconclusive('C09.R5', repo.function('_import_from_file').where, 'reader is inside the interpreted fragment', got=str(e))
+    from .c10 import check_import_pure
+    check_import_pure(rep, repo, 'C09.R5')
     # C09.R6: validity schema of the LP that solves the loaded instance (same rule functions as C01, re-run here)
     from . import c01
     from .. import lpfacts
